@@ -1,5 +1,6 @@
 import WowVerif.Model.C14Adt
 import WowVerif.Lemmas.Iff
+import WowVerif.Lemmas.C14Water
 /-!
 C14 — ADT: in every produced file the chunk framing tiles the file exactly and every offset-table entry points at a
 chunk of the named type.
@@ -107,5 +108,34 @@ example : mhdrOf [("MVER", 4), ("MHDR", 64), ("MCIN", 4096), ("MTEX", 10), ("MH2
     [2, 64, 4168, 0, 0, 0, 0, 0, 0, 0, 4186, 0, 0, 0, 0, 0] := by decide
 example : (mcinOf [("MVER", 4), ("MCNK", 100), ("MCNK", 50)]).take 3 = [(12, 100), (120, 50), (0, 0)] := by decide
 example : (mcnkOf [("MCVT", 580), ("MCNR", 448), ("MCLY", 32), ("MCCV", 580)]).ofsLayer = 1188 := by decide
+
+/-! ### the water chunk (Model.C14Water = write_mh2o_chunk's offset bookkeeping) -/
+
+/-- WATER OFFSETS POINT AT THEIR DATA, NOTHING OVERLAPS: for any 256 (or fewer) entries with any number of layers, any mix of
+    exists bitmaps, vertex data of any size and attributes, the regions named by the offsets the writer records — the
+    instance block of every entry, every bitmap, every vertex block, every attribute block — follow one another without
+    gap or overlap from the end of the header table (3072) to the end of the chunk payload; one header per entry; and
+    consequently they are pairwise disjoint and inside the payload. -/
+theorem water_offsets_tile (es : List Water.Entry) :
+    Water.Tiles 3072 (Water.allRegions es (Water.layout es).1) (Water.layout es).2 ∧
+    (Water.layout es).1.length = es.length ∧
+    (Water.allRegions es (Water.layout es).1).Pairwise (fun a b => a.1 + a.2 ≤ b.1) ∧
+    (∀ r ∈ Water.allRegions es (Water.layout es).1, 3072 ≤ r.1 ∧ r.1 + r.2 ≤ (Water.layout es).2) := by
+  have h := Water.all_tile es 3072
+  have s := Water.tiles_sorted _ _ _ h.1
+  exact ⟨h.1, h.2, s.1, s.2⟩
+
+/-- what is recorded for one entry: the instance offset is where the entry starts (0 for an entry without layers), the
+    layer count is the number of layers, and an absent bitmap / vertex block / attribute block is recorded as 0 -/
+theorem water_entry_fields (pos : Nat) (e : Water.Entry) :
+    (Water.layEntry pos e).1.count = e.layers.length ∧
+    (Water.layEntry pos e).1.inst = (if e.layers.length = 0 then 0 else pos) ∧
+    (e.attrs = false → (Water.layEntry pos e).1.attr = 0) := by
+  refine ⟨rfl, rfl, fun h => ?_⟩
+  simp [Water.layEntry, h]
+
+/-! non-vacuity: two layers (bitmap only; bitmap + 648 bytes of vertex data) with attributes, then an attribute-only entry -/
+example : Water.layout [⟨[⟨true, none⟩, ⟨true, some 648⟩], true⟩, ⟨[], true⟩] =
+    ([⟨3072, 2, 3784, [(3120, 0), (3128, 3136)]⟩, ⟨0, 0, 3800, []⟩], 3816) := by decide
 
 end Wv.Adt
